@@ -158,11 +158,15 @@ def peek (h : Heap) (c : RCache) (k : Int) : Bool × Int :=
   | none => (false, -1)
   | some e => (true, (h e.id).next)
 
+def nodupB : List Nat → Bool
+  | [] => true
+  | x :: xs => !xs.contains x && nodupB xs
+
 /-- is `victims` (block ids) a set of blocks `drop(n)` can delete?  unused blocks go first, then any. -/
 def dropOk (h : Heap) (items : List Entry) (n : Int) (victims : List Nat) : Bool :=
   let ids := items.map (·.id)
   let want : Nat := if n ≤ 0 then 0 else min n.toNat items.length
-  victims.all (fun v => ids.contains v) && victims.eraseDups.length == victims.length &&
+  victims.all (fun v => ids.contains v) && nodupB victims &&
     victims.length == want &&
     (victims.all (fun v => !(h v).used) ||
       items.all (fun e => (h e.id).used || victims.contains e.id))
